@@ -425,6 +425,15 @@ func (t *tr) isNonNilErr(e ast.Expr) bool {
 			}
 			return t.f.errVars[obj]
 		}
+	case *ast.SelectorExpr:
+		// a field path of error type inside the branch guarded by `<path> != nil`
+		if t.isFieldPath(x) {
+			for _, kq := range t.f.nonNil {
+				if kq == t.pathKey(x) {
+					return true
+				}
+			}
+		}
 	}
 	return false
 }
@@ -556,6 +565,24 @@ func (t *tr) errGuard(s ast.Stmt, errObj types.Object) bool {
 		return true
 	}
 	return t.isNonNilErr(last)
+}
+
+// okGuard recognises `if err == nil { … }` (no else) and returns its body
+func (t *tr) okGuard(s ast.Stmt, errObj types.Object) ([]ast.Stmt, bool) {
+	is, ok := s.(*ast.IfStmt)
+	if !ok || is.Init != nil || is.Else != nil {
+		return nil, false
+	}
+	be, ok := is.Cond.(*ast.BinaryExpr)
+	if !ok || be.Op != token.EQL {
+		return nil, false
+	}
+	a, ok1 := be.X.(*ast.Ident)
+	b, ok2 := be.Y.(*ast.Ident)
+	if !ok1 || !ok2 || t.objOf(a) != errObj || b.Name != "nil" {
+		return nil, false
+	}
+	return is.Body.List, true
 }
 
 // loopGuard recognises `if err != nil { continue }` / `{ break }` inside a translated loop and returns that statement
@@ -850,7 +877,14 @@ func (t *tr) block(stmts []ast.Stmt, depth int, k func() string) string {
 					t.setVar(n, ty, "false")
 				case kOpt:
 					t.setVar(n, ty, "none")
-				case kAbs, kErr:
+				case kRecList, kSet:
+					t.setVar(n, ty, "[]")
+				case kAbs:
+					if tp, isTP := ty.(*types.TypeParam); isTP && t.f.hasBinder(tp.Obj().Name()+"_zero") {
+						t.setVar(n, ty, tp.Obj().Name()+"_zero") // var zero P
+					}
+					// otherwise no zero value in the model: the variable must be assigned before it is read (a read fails)
+				case kErr:
 					// no zero value in the model: the variable must be assigned before it is read (a read fails)
 				default:
 					return t.fail(s, "var of type %s", ty)
@@ -881,10 +915,7 @@ func (t *tr) block(stmts []ast.Stmt, depth int, k func() string) string {
 						if xobj == nil || sig == nil || sig.Results().Len() != len(x.Lhs) {
 							return t.fail(s, "-step call shape")
 						}
-						args := []string{t.expr(sel.X)}
-						for _, a := range c.Args {
-							args = append(args, t.expr(a))
-						}
+						args := append([]string{t.expr(sel.X)}, t.stepArgs(c, sig)...)
 						var tys []string
 						for i := 0; i < sig.Results().Len(); i++ {
 							tys = append(tys, t.leanType(sig.Results().At(i).Type()))
@@ -906,6 +937,9 @@ func (t *tr) block(stmts []ast.Stmt, depth int, k func() string) string {
 							lo, ln := t.placeObj(l)
 							if lo == nil {
 								return t.fail(s, "-step target %s", t.src(l))
+							}
+							if ke, _ := classify(sig.Results().At(i).Type()); ke == kErr {
+								t.f.errBool[lo] = true // an error handed out by the object: only whether it is non-nil
 							}
 							t.setObj(lo, ln, sig.Results().At(i).Type(), p, s)
 						}
@@ -980,6 +1014,52 @@ func (t *tr) block(stmts []ast.Stmt, depth int, k func() string) string {
 					}
 				}
 			}
+			if len(x.Lhs) == 2 && len(x.Rhs) == 1 {
+				if ta, ok := x.Rhs[0].(*ast.TypeAssertExpr); ok && ta.Type != nil {
+					k1, _ := t.kindOf(ta.X)
+					k2, _ := classify(t.typeOf(ta.Type))
+					a1, _ := absTypeOf(t.typeOf(ta.X))
+					a2, _ := absTypeOf(t.typeOf(ta.Type))
+					if k1 == kAbs && k2 == kAbs && t.f.hasBinder(a1+"_as_"+a2) {
+						tmp := t.define("cast_"+a2, a2+" × Bool", fmt.Sprintf("%s_as_%s %s", a1, a2, t.expr(ta.X)))
+						if id, ok := x.Lhs[0].(*ast.Ident); ok && id.Name != "_" {
+							t.setVar(id, t.typeOf(ta.Type), tmp+".1")
+						}
+						if id, ok := x.Lhs[1].(*ast.Ident); ok && id.Name != "_" {
+							t.setVar(id, types.Typ[types.Bool], tmp+".2")
+						}
+						return t.block(rest, depth, k)
+					}
+				}
+			}
+			if !t.f.stateful && len(x.Lhs) == 2 && len(x.Rhs) == 1 {
+				if c, isCall := x.Rhs[0].(*ast.CallExpr); isCall && len(c.Args) == 2 {
+					if o, isRead := t.f.readops[t.ck(c)]; isRead {
+						// _, err := io.ReadFull(r, buf); if err != nil { return … }: on success buf holds exactly len(buf) bytes from r
+						eid, ok := x.Lhs[1].(*ast.Ident)
+						vid, ok2 := x.Lhs[0].(*ast.Ident)
+						if !ok || !ok2 || vid.Name != "_" || len(rest) == 0 || !t.errGuard(rest[0], t.objOf(eid)) {
+							return t.fail(s, "a -read call must be `_, err := f(r, buf)` followed by `if err != nil { return …, err }`")
+						}
+						dst, cur, lo, hi, okw := t.window(c.Args[1])
+						if !okw {
+							return "(UNSUPPORTED)"
+						}
+						f := t.f
+						opt := t.define("opt_read", "Option Bytes", fmt.Sprintf("(%s %s (%s - %s))", leanName(o.name), t.expr(c.Args[0]), hi, lo))
+						saved := f.binders
+						bn := t.newBinderName()
+						f.binders = append(append([]binder{}, f.binders...), binder{bn, "Bytes"})
+						t.store(dst, x, fmt.Sprintf("GoSem.copyInto %s %s %s %s", cur, lo, hi, bn))
+						body := t.block(rest[1:], depth+1, k)
+						f.binders = saved
+						if len(t.f.loops) > 0 {
+							return t.fail(s, "-read call inside a loop")
+						}
+						return fmt.Sprintf("%s(%s).bind (fun %s =>\n%s)", ind(depth), opt, bn, body)
+					}
+				}
+			}
 			if !t.f.stateful && len(x.Lhs) == 2 && len(x.Rhs) == 1 {
 				if tup, ok := t.typeOf(x.Rhs[0]).(*types.Tuple); ok && tup.Len() == 2 {
 					if ke, _ := classify(tup.At(1).Type()); ke == kErr {
@@ -1022,6 +1102,15 @@ func (t *tr) block(stmts []ast.Stmt, depth int, k func() string) string {
 							return t.block(rest[1:], depth, k)
 						}
 						return t.bindOption(x, tup, rest, depth, k)
+					}
+				}
+			}
+			if !t.f.stateful && len(x.Lhs) >= 3 && len(x.Rhs) == 1 {
+				if c, isCall := x.Rhs[0].(*ast.CallExpr); isCall {
+					if tup, ok := t.typeOf(c).(*types.Tuple); ok && tup.Len() == len(x.Lhs) {
+						if ke, _ := classify(tup.At(tup.Len() - 1).Type()); ke == kErr {
+							return t.bindOptionN(x, tup, rest, depth, k)
+						}
 					}
 				}
 			}
@@ -1296,6 +1385,25 @@ func (t *tr) assignTo(lhs ast.Expr, ty types.Type, val string, s ast.Stmt, rest 
 		t.setVar(lv, vt, val)
 		return t.block(rest, depth, k)
 	case *ast.IndexExpr:
+		if kd, _ := t.kindOf(lv.X); kd == kAbs {
+			an, _ := absTypeOf(t.typeOf(lv.X))
+			base, name := t.placeObj(lv.X)
+			if base == nil || !t.f.hasBinder(an+"_set") {
+				return t.fail(s, "store into the abstract map %s", t.src(lv.X))
+			}
+			t.setObj(base, name, t.typeOf(lv.X), fmt.Sprintf("(%s_set %s %s %s)", an, t.expr(lv.X), t.expr(lv.Index), val), s)
+			return t.block(rest, depth, k)
+		}
+		if kd, _ := t.kindOf(lv.X); kd == kMapList {
+			// m[k] = v: the map function updated at k
+			base, name := t.placeObj(lv.X)
+			if base == nil {
+				return t.fail(s, "store into a map that is not a variable / field")
+			}
+			cur := t.expr(lv.X)
+			t.setObj(base, name, t.typeOf(lv.X), fmt.Sprintf("(fun k__ => if k__ = %s then %s else %s k__)", t.expr(lv.Index), val, cur), s)
+			return t.block(rest, depth, k)
+		}
 		if kd, _ := t.kindOf(lv.X); kd == kSet {
 			// m[k] = true on a map used as a set
 			base, name := t.placeObj(lv.X)
@@ -1444,6 +1552,31 @@ func (t *tr) bindOption(x *ast.AssignStmt, tup *types.Tuple, rest []ast.Stmt, de
 	if len(rest) > 0 {
 		loopBr = t.loopGuard(rest[0], errObj)
 	}
+	if loopBr == nil && len(rest) > 0 && !t.errGuard(rest[0], errObj) {
+		if body, ok := t.okGuard(rest[0], errObj); ok {
+			// v, err := f(…); if err == nil { A }; B   =   on success A (then B unless A leaves), on failure B
+			if _, isCall := x.Rhs[0].(*ast.CallExpr); isCall && t.f.inouts[t.ck(x.Rhs[0].(*ast.CallExpr))].name == "" {
+				f := t.f
+				opt := t.define("opt_"+vid.Name, optOf(t.leanType(tup.At(0).Type())), t.expr(x.Rhs[0]))
+				pre := t.cloneEnv()
+				saved := f.binders
+				bn := t.newBinderName()
+				f.binders = append(append([]binder{}, f.binders...), binder{bn, t.leanType(tup.At(0).Type())})
+				if vid.Name != "_" {
+					f.env[t.objOf(vid)] = bn
+				}
+				someS := body
+				if !terminates(body) {
+					someS = append(append([]ast.Stmt{}, body...), rest[1:]...)
+				}
+				someB := t.block(someS, depth+1, k)
+				f.binders = saved
+				t.f.env = cloneMap(pre)
+				noneB := t.block(rest[1:], depth+1, k)
+				return fmt.Sprintf("%smatch %s with\n%s| none =>\n%s\n%s| some %s =>\n%s", ind(depth), opt, ind(depth), noneB, ind(depth), bn, someB)
+			}
+		}
+	}
 	if loopBr == nil && (len(rest) == 0 || !t.errGuard(rest[0], errObj)) {
 		return t.fail(x, "a (value, error) result must be followed by `if err != nil { return …, err }`")
 	}
@@ -1510,12 +1643,93 @@ func (t *tr) bindOption(x *ast.AssignStmt, tup *types.Tuple, rest []ast.Stmt, de
 	return fmt.Sprintf("%s(%s).bind (fun %s =>\n%s)", ind(depth), opt, bn, body)
 }
 
+// stepArgs: the explicit arguments of a -step call: arguments of an empty struct type (tokens) carry no information and are
+// dropped; the arguments of a variadic parameter form a list
+func (t *tr) stepArgs(c *ast.CallExpr, sig *types.Signature) []string {
+	var args []string
+	np := sig.Params().Len()
+	for i, a := range c.Args {
+		if sig.Variadic() && i >= np-1 {
+			break
+		}
+		if emptyStruct(sig.Params().At(i).Type()) {
+			continue
+		}
+		args = append(args, t.expr(a))
+	}
+	if sig.Variadic() {
+		if c.Ellipsis.IsValid() {
+			args = append(args, t.expr(c.Args[len(c.Args)-1]))
+		} else {
+			var vs []string
+			for _, a := range c.Args[np-1:] {
+				vs = append(vs, t.expr(a))
+			}
+			args = append(args, "["+strings.Join(vs, ", ")+"]")
+		}
+	}
+	return args
+}
+
+func emptyStruct(ty types.Type) bool {
+	st, ok := ty.Underlying().(*types.Struct)
+	return ok && st.NumFields() == 0
+}
+
+// bindOptionN: v1, …, vn, err := f(…); if err != nil { return …, err }   with f : … → Option (T1 × … × Tn)
+func (t *tr) bindOptionN(x *ast.AssignStmt, tup *types.Tuple, rest []ast.Stmt, depth int, k func() string) string {
+	n := tup.Len() - 1
+	var ids []*ast.Ident
+	for _, l := range x.Lhs {
+		id, ok := l.(*ast.Ident)
+		if !ok {
+			return t.fail(x, "tuple assignment target")
+		}
+		ids = append(ids, id)
+	}
+	if len(rest) == 0 || !t.errGuard(rest[0], t.objOf(ids[n])) {
+		return t.fail(x, "a (values…, error) result must be followed by `if err != nil { return …, err }`")
+	}
+	var tys []string
+	for i := 0; i < n; i++ {
+		tys = append(tys, t.leanType(tup.At(i).Type()))
+	}
+	prod := strings.Join(tys, " × ")
+	f := t.f
+	opt := t.define("opt_"+ids[0].Name, "Option ("+prod+")", t.expr(x.Rhs[0]))
+	saved := f.binders
+	bn := t.newBinderName()
+	f.binders = append(append([]binder{}, f.binders...), binder{bn, prod})
+	for i := 0; i < n; i++ {
+		if ids[i].Name == "_" {
+			continue
+		}
+		p := bn
+		for j := 0; j < i; j++ {
+			p += ".2"
+		}
+		if i < n-1 {
+			p += ".1"
+		}
+		f.env[t.objOf(ids[i])] = p
+	}
+	body := t.block(rest[1:], depth+1, k)
+	f.binders = saved
+	if len(t.f.loops) > 0 {
+		return fmt.Sprintf("%smatch %s with\n%s| none => %s\n%s| some %s =>\n%s", ind(depth), opt, ind(depth), t.wrapRet("none"), ind(depth), bn, body)
+	}
+	return fmt.Sprintf("%s(%s).bind (fun %s =>\n%s)", ind(depth), opt, bn, body)
+}
+
 func (t *tr) ifStmt(x *ast.IfStmt, rest []ast.Stmt, depth int, k func() string) string {
 	if x.Init != nil {
 		// `if init; cond {…}`: the init statement, then the plain if (the variables are distinct objects, so the wider scope is harmless)
 		plainIf := *x
 		plainIf.Init = nil
 		return t.block(append([]ast.Stmt{x.Init, &plainIf}, rest...), depth, k)
+	}
+	if r, ok := t.ifElseBind(x, rest, depth, k); ok {
+		return r
 	}
 	// a condition that is (the negation of) a call of a stateful helper: the call is made first, its Bool result tested
 	var c string
@@ -1591,10 +1805,78 @@ func (t *tr) ifStmt(x *ast.IfStmt, rest []ast.Stmt, depth int, k func() string) 
 	if !elseT {
 		elseS = append(append([]ast.Stmt{}, elseS...), rest...)
 	}
+	pushed := false
+	if be, ok := x.Cond.(*ast.BinaryExpr); ok && be.Op == token.NEQ && thenT {
+		if id, ok := be.Y.(*ast.Ident); ok && id.Name == "nil" {
+			if se, ok := be.X.(*ast.SelectorExpr); ok && t.isFieldPath(se) {
+				if ke, _ := t.kindOf(se); ke == kErr {
+					t.f.nonNil = append(t.f.nonNil, t.pathKey(se))
+					pushed = true
+				}
+			}
+		}
+	}
 	a := t.block(thenS, depth+1, k)
+	if pushed {
+		t.f.nonNil = t.f.nonNil[:len(t.f.nonNil)-1]
+	}
 	t.f.env = cloneMap(pre)
 	b := t.block(elseS, depth+1, k)
 	return fmt.Sprintf("%sif %s then\n%s\n%selse\n%s", ind(depth), c, a, ind(depth), b)
+}
+
+// ifElseBind: `if c { v, err = f(…) } else { v, err = g(…) }; if err != nil { return …, err }` — the two calls are one
+// conditional Option value that is bound once
+func (t *tr) ifElseBind(x *ast.IfStmt, rest []ast.Stmt, depth int, k func() string) (string, bool) {
+	if t.f.stateful || x.Else == nil || len(rest) == 0 {
+		return "", false
+	}
+	eb, ok := x.Else.(*ast.BlockStmt)
+	if !ok || len(x.Body.List) != 1 || len(eb.List) != 1 {
+		return "", false
+	}
+	a1, ok1 := x.Body.List[0].(*ast.AssignStmt)
+	a2, ok2 := eb.List[0].(*ast.AssignStmt)
+	if !ok1 || !ok2 || a1.Tok != token.ASSIGN || a2.Tok != token.ASSIGN || len(a1.Lhs) != 2 || len(a2.Lhs) != 2 || len(a1.Rhs) != 1 || len(a2.Rhs) != 1 {
+		return "", false
+	}
+	var objs [2]types.Object
+	for i := 0; i < 2; i++ {
+		i1, ok1 := a1.Lhs[i].(*ast.Ident)
+		i2, ok2 := a2.Lhs[i].(*ast.Ident)
+		if !ok1 || !ok2 || t.objOf(i1) == nil || t.objOf(i1) != t.objOf(i2) {
+			return "", false
+		}
+		objs[i] = t.objOf(i1)
+	}
+	c1, okc1 := a1.Rhs[0].(*ast.CallExpr)
+	c2, okc2 := a2.Rhs[0].(*ast.CallExpr)
+	if !okc1 || !okc2 {
+		return "", false
+	}
+	tup, ok := t.typeOf(c1).(*types.Tuple)
+	if !ok || tup.Len() != 2 || !types.Identical(t.typeOf(c1), t.typeOf(c2)) {
+		return "", false
+	}
+	if ke, _ := classify(tup.At(1).Type()); ke != kErr {
+		return "", false
+	}
+	if !t.errGuard(rest[0], objs[1]) {
+		return "", false
+	}
+	f := t.f
+	vty := t.leanType(tup.At(0).Type())
+	opt := t.define("opt_"+objs[0].Name(), optOf(vty), fmt.Sprintf("if %s then %s else %s", t.cond(x.Cond), t.expr(c1), t.expr(c2)))
+	saved := f.binders
+	bn := t.newBinderName()
+	f.binders = append(append([]binder{}, f.binders...), binder{bn, vty})
+	f.env[objs[0]] = bn
+	body := t.block(rest[1:], depth+1, k)
+	f.binders = saved
+	if len(t.f.loops) > 0 {
+		return fmt.Sprintf("%smatch %s with\n%s| none => %s\n%s| some %s =>\n%s", ind(depth), opt, ind(depth), t.wrapRet("none"), ind(depth), bn, body), true
+	}
+	return fmt.Sprintf("%s(%s).bind (fun %s =>\n%s)", ind(depth), opt, bn, body), true
 }
 
 // exits: the statements contain a return / break / continue / goto / panic somewhere (closures excluded)
